@@ -221,8 +221,9 @@ func showValue(v reflect.Value) *sx.Node {
 
 // recorder is the handler's side channel: how often it ran and what it received.
 type recorder struct {
-	calls int
-	got   *sx.Node
+	calls    int
+	got      *sx.Node
+	returned error // the error value the handler returned (nil: none)
 }
 
 func (r *recorder) record(args ...any) {
@@ -241,9 +242,45 @@ func (r *recorder) recordValues(args []reflect.Value) {
 	}
 }
 
-func behErr(k int64, e bool) error {
-	if e {
-		return tokErr{k}
+// ret notes the error value the handler is about to return (so that the observation can ask
+// whether the error Call reports is this very value) and passes it through.
+func (r *recorder) ret(e error) error {
+	r.returned = e
+	return e
+}
+
+// errKind is the handler-behaviour dimension "which error value does the handler return":
+// 0 nil; 1 a plain error (tokErr{k}); 2 an error that already IS a *schema.FunctionCallError
+// with IsFunctionReportedError=false (what a handler gets back from a mis-shaped call of another
+// function and passes on); 3 the same with IsFunctionReportedError=true.
+type errKind int
+
+func behErr(k int64, e errKind) error {
+	switch e {
+	case 0:
+		return nil
+	case 2:
+		return schema.NewFunctionCallError(tokErr{k}, false)
+	case 3:
+		return schema.NewFunctionCallError(tokErr{k}, true)
+	}
+	return tokErr{k}
+}
+
+// showHandlerErr renders the error value a handler returned: K for tokErr{K}, fce0 K / fce1 K
+// for a *FunctionCallError wrapping tokErr{K} (case_handler in Interp/RunFunction.v).
+func showHandlerErr(e error) []*sx.Node {
+	switch v := e.(type) {
+	case tokErr:
+		return []*sx.Node{sx.I(v.k)}
+	case *schema.FunctionCallError:
+		if te, ok := v.SourceError.(tokErr); ok {
+			tag := "fce0"
+			if v.IsFunctionReportedError {
+				tag = "fce1"
+			}
+			return []*sx.Node{sx.A(tag), sx.I(te.k)}
+		}
 	}
 	return nil
 }
@@ -251,7 +288,7 @@ func behErr(k int64, e bool) error {
 // makeHandler builds a func of the described signature whose body implements (beh k e): the
 // last result, when it is of the error interface type, is nil / tokErr{k}; every other result
 // is the value made from k at that result's type.
-func makeHandler(sig *sx.Node, k int64, e bool, rec *recorder) any {
+func makeHandler(sig *sx.Node, k int64, e errKind, rec *recorder) any {
 	var ins, outs []reflect.Type
 	for _, t := range sig.List[1].List {
 		ins = append(ins, fnType(t))
@@ -267,8 +304,8 @@ func makeHandler(sig *sx.Node, k int64, e bool, rec *recorder) any {
 		for i, t := range outNodes {
 			if i == len(outs)-1 && outs[i] == rtErr {
 				v := reflect.New(rtErr).Elem()
-				if e {
-					v.Set(reflect.ValueOf(tokErr{k}))
+				if he := rec.ret(behErr(k, e)); he != nil {
+					v.Set(reflect.ValueOf(he))
 				}
 				res[i] = v
 			} else {
@@ -341,8 +378,12 @@ func fnCall(f schema.CallableFunction, hasOut bool, args []any, rec *recorder) (
 			obs.Append(sx.A("untyped"))
 		case fce.IsFunctionReportedError:
 			obs.Append(sx.A("reported"))
-			if te, ok := fce.SourceError.(tokErr); ok && rec.calls == 1 {
-				obs.Append(sx.I(te.k), rec.got)
+			// "the handler's own error": the reported error carries (or, for a handler error that
+			// already is a *FunctionCallError flagged function-reported, is) the very value the
+			// handler returned
+			own := rec.returned != nil && (fce.SourceError == rec.returned || error(fce) == rec.returned)
+			if shown := showHandlerErr(rec.returned); own && shown != nil && rec.calls == 1 {
+				obs.Append(shown...).Append(rec.got)
 			} else {
 				obs.Append(sx.A("not-the-handlers-error"), sx.I(int64(rec.calls)))
 			}
@@ -371,16 +412,20 @@ func fnCall(f schema.CallableFunction, hasOut bool, args []any, rec *recorder) (
 }
 
 // runFunctionWith executes one case with the handler produced by mk.
-func runFunctionWith(p *sx.Node, mk func(k int64, e bool, rec *recorder) any) *sx.Node {
+func runFunctionWith(p *sx.Node, mk func(k int64, e errKind, rec *recorder) any) *sx.Node {
 	mode, decl := p.List[1].Atom, p.List[3]
 	rec := &recorder{}
 	switch p.Head() {
 	case "accept":
-		_, obs := fnConstruct(mode, decl, mk(0, false, rec))
+		_, obs := fnConstruct(mode, decl, mk(0, 0, rec))
 		return sx.L(sx.A("r"), sx.A(obs))
 	case "call":
 		beh := p.List[5]
-		f, obs := fnConstruct(mode, decl, mk(beh.List[1].Int(), beh.List[2].Atom == "1", rec))
+		kind := errKind(beh.List[2].Int())
+		if kind < 0 || kind > 3 {
+			return sx.L(sx.A("bad"), sx.S("call"))
+		}
+		f, obs := fnConstruct(mode, decl, mk(beh.List[1].Int(), kind, rec))
 		if f == nil {
 			return sx.L(sx.A("r"), sx.A(obs))
 		}
@@ -397,7 +442,7 @@ func runFunction(p *sx.Node) (res *sx.Node) {
 		}
 	}()
 	sig := p.List[2]
-	res = runFunctionWith(p, func(k int64, e bool, rec *recorder) any { return makeHandler(sig, k, e, rec) })
+	res = runFunctionWith(p, func(k int64, e errKind, rec *recorder) any { return makeHandler(sig, k, e, rec) })
 	if lit, ok := literalHandlers[sig.String()]; ok {
 		res2 := runFunctionWith(p, lit)
 		if res.String() != res2.String() {
@@ -560,6 +605,20 @@ func resultShapes() [][]*sx.Node {
 	return shapes
 }
 
+// result lists whose first two entries are what NewDynamicCallableFunction wants, or whose prefix
+// is what NewCallableFunction wants, followed by extra results
+func extraDynamicShapes() [][]*sx.Node {
+	return [][]*sx.Node{
+		{tyAny, tyErr, tyErr},
+		{tyAny, tyErr, tyI64},
+		{tyAny, tyErr, tyStr, tyI64},
+		{tyErr, tyErr, tyErr},
+		{tyAny, tyErr, tyAny, tyErr},
+		{tyStr, tyErr, tyErr},
+		{tyErr, tyErr, tyI64, tyErr},
+	}
+}
+
 func isSliceTy(t *sx.Node) bool { return t.IsList() && t.Head() == "sl" }
 
 // an argument of (dynamic) type t made from token k
@@ -629,7 +688,16 @@ func argLists(ins []*sx.Node, salt int) [][]*sx.Node {
 }
 
 func callCase(mode string, s fnSig, d fnDecl, args []*sx.Node, k int64, e bool) *sx.Node {
-	return sx.L(sx.A("call"), sx.A(mode), s.sx(), d.sx(), sx.L(sx.A("args")).Append(args...), sx.L(sx.A("beh"), sx.I(k), sx.B(e)))
+	kind := errKind(0)
+	if e {
+		kind = 1
+	}
+	return callCaseKind(mode, s, d, args, k, kind)
+}
+
+// callCaseKind: the handler returns the error value of the given kind (errKind)
+func callCaseKind(mode string, s fnSig, d fnDecl, args []*sx.Node, k int64, kind errKind) *sx.Node {
+	return sx.L(sx.A("call"), sx.A(mode), s.sx(), d.sx(), sx.L(sx.A("args")).Append(args...), sx.L(sx.A("beh"), sx.I(k), sx.I(int64(kind))))
 }
 func acceptCase(mode string, s fnSig, d fnDecl) *sx.Node {
 	return sx.L(sx.A("accept"), sx.A(mode), s.sx(), d.sx())
@@ -705,6 +773,20 @@ func init() {
 			wt := fnSig{ins: []*sx.Node{tyI64}}
 			emit(callCase("static", wt, fnDecl{ins: wt.ins}, []*sx.Node{argOf(tyStr, 1)}, 5, false))
 			emit(callCase("static", wt, fnDecl{ins: wt.ins}, []*sx.Node{sx.A("nil")}, 5, false))
+			// a handler whose error value already is a *FunctionCallError (flag false / true): still the
+			// handler's error, hence function-reported
+			for _, kind := range []errKind{2, 3} {
+				emit(callCaseKind("static", fnSig{outs: []*sx.Node{tyErr}}, fnDecl{err: true}, nil, 5, kind))
+				he := fnSig{ins: []*sx.Node{tyI64}, outs: []*sx.Node{tyI64, tyErr}}
+				emit(callCaseKind("static", he, fnDecl{ins: he.ins, out: tyI64, err: true}, []*sx.Node{argOf(tyI64, 1)}, 5, kind))
+				emit(callCaseKind("dynamic", d39, fnDecl{ins: d39.ins}, []*sx.Node{argOf(tyStr, 1)}, 5, kind))
+			}
+			// dynamic handlers with results AFTER (any, error)
+			for _, outs := range extraDynamicShapes() {
+				xs := fnSig{outs: outs}
+				emit(acceptCase("dynamic", xs, fnDecl{}))
+				emit(callCase("dynamic", xs, fnDecl{}, nil, 5, false))
+			}
 
 			// (1) acceptance: every parameter tuple of length 0..3 (thorough: 0..4) x every result shape (+ the
 			// variadic variant when the last parameter is a slice) x the declaration it was
@@ -734,6 +816,30 @@ func init() {
 								}
 							}
 						}
+					}
+				}
+			}
+
+			// (1b) result lists that EXTEND an accepted one: (I, error) of the dynamic constructor followed by
+			// one or two more results, and the static (T, error) / (error) followed by more - for every
+			// parameter tuple of length 0..2, the declaration written for the prefix and its one-place mutants
+			for n := 0; n <= 2; n++ {
+				for _, ins := range tuples(fnParamPool, n) {
+					for _, outs := range extraDynamicShapes() {
+						salt++
+						s := fnSig{ins: ins, outs: outs}
+						d := derivedDecl(s)
+						emit(acceptCase("static", s, d))
+						emit(acceptCase("dynamic", s, d))
+						for i, m := range declMutants(d, salt) {
+							emit(acceptCase("static", s, m))
+							if i < len(d.ins)+2 {
+								emit(acceptCase("dynamic", s, m))
+							}
+						}
+						good := argLists(ins, salt)[0]
+						emit(callCase("dynamic", s, d, good, int64(7+salt%5), false))
+						emit(callCase("dynamic", s, d, good, int64(7+salt%5), true))
 					}
 				}
 			}
@@ -781,6 +887,17 @@ func init() {
 									emit(callCase(cs.mode, s, d, args, int64(7+salt%5), true))
 								}
 							}
+							if cs.err && !v && ci != len(callShapes)-1 {
+								// the handler-behaviour dimension "kind of error value": an error that already is a
+								// *FunctionCallError (flag false / true), with the declared arguments and with one
+								// mis-shaped list (the handler must not even run)
+								for li, args := range lists {
+									if li == 0 || li == len(lists)-1 {
+										emit(callCaseKind(cs.mode, s, d, args, int64(7+salt%5), 2))
+										emit(callCaseKind(cs.mode, s, d, args, int64(7+salt%5), 3))
+									}
+								}
+							}
 						}
 					}
 				}
@@ -807,7 +924,7 @@ func init() {
 				if r.Chance(35) {
 					emit(acceptCase(mode, s, d))
 				} else {
-					emit(callCase(mode, s, d, genRandomArgs(r, s.ins), int64(r.Intn(100)), r.Bool()))
+					emit(callCaseKind(mode, s, d, genRandomArgs(r, s.ins), int64(r.Intn(100)), pick(r, []errKind{0, 0, 0, 1, 1, 2, 2, 3})))
 				}
 			}
 		},
